@@ -1408,6 +1408,16 @@ func TestVerif_C01_Tamper(t *testing.T) {
 				} else {
 					e.unplant(tg.key)
 				}
+				// the same relocation at the entry level: the backend answers a read of the
+				// target key with the whole entry it holds for the source (entry key included)
+				e.probe.Alias(tg.key, rec.Key)
+				r.Count("mutations", 1)
+				r.Count("mutations_"+kind+"-entry-level", 1)
+				desc = fmt.Sprintf("backend serves the entry of %q (with its entry key) for a read of %q", rec.Key, tg.key)
+				for _, rd := range e.readers(tg.key) {
+					c01Judge(r, caseID, desc, rd(), rec.Val, rec.Ver == 1, nil, mw)
+				}
+				e.probe.Unalias(tg.key)
 			}
 			if len(r.Samples) < 6 {
 				r.Sample(map[string]any{"case": caseID, "env": e.id, "key": rec.Key, "how": rec.How, "version": rec.Ver, "term": rec.Term, "value_shape": rec.Shape, "stored_len": len(rec.Stored), "transplant_targets": len(targets)})
